@@ -130,6 +130,9 @@ impl Backend {
         assert(i < references@.len() && references@.len() == references.len());
         i = i + 1;
     }
+@return 3
+    // C11: the info!() dropped by T2 in front of this return computes `references.len() - skipped_count`
+    assert(skipped_count <= references.len());
 @*/
 
 /*@ extract src/providers/implementation.rs handle_goto_implementation
